@@ -37,6 +37,14 @@ type refFunc struct {
 	Tokens []string `json:"tokens"`
 	Locals []refField `json:"locals,omitempty"` // named address-taken locals (of the function and its literals), in order
 	Names  []string   `json:"names,omitempty"`  // every name declared inside the function (parameters, results, locals)
+	Wrap   *refWrap   `json:"wrap,omitempty"`   // set when the function only forwards to one other call
+}
+
+// refWrap describes a function whose whole body is `return callee(args...)`: args are "$k" (parameter k of the
+// wrapper, receiver first) or the printed form of an argument that does not depend on parameters.
+type refWrap struct {
+	Callee string   `json:"callee"`
+	Args   []string `json:"args"`
 }
 
 type refField struct {
@@ -61,6 +69,7 @@ type renameTable struct {
 	funcByRef   map[string]*ssa.Function // reference full name -> current function
 	fieldAlias  map[*types.Var]string    // current field -> reference name
 	localAlias  map[*ssa.Alloc]string    // renamed local -> reference name
+	wrapFold    map[string][]wrapFold    // callee (as printed) -> reference wrappers that were inlined at their call sites
 	paramPerm   map[*ssa.Function][]int  // current parameter index -> reference index, for functions whose parameters were only reordered
 	groupField  map[*types.Var]bool      // current field of a new struct type that only groups reference fields
 	typeNew2Old map[string]string        // "pkgpath.New" -> "pkgpath.Old"
@@ -97,7 +106,7 @@ func isNewHelperOrInside(f *ssa.Function) bool {
 	return isNewHelper(f)
 }
 
-var curRenames = &renameTable{funcAlias: map[*ssa.Function]string{}, funcByRef: map[string]*ssa.Function{}, fieldAlias: map[*types.Var]string{}, groupField: map[*types.Var]bool{}, paramPerm: map[*ssa.Function][]int{}, localAlias: map[*ssa.Alloc]string{}, typeNew2Old: map[string]string{}, typeOld2New: map[string]string{}}
+var curRenames = &renameTable{funcAlias: map[*ssa.Function]string{}, funcByRef: map[string]*ssa.Function{}, fieldAlias: map[*types.Var]string{}, groupField: map[*types.Var]bool{}, paramPerm: map[*ssa.Function][]int{}, localAlias: map[*ssa.Alloc]string{}, wrapFold: map[string][]wrapFold{}, typeNew2Old: map[string]string{}, typeOld2New: map[string]string{}}
 
 func isIdentChar(c byte) bool {
 	return c == '_' || c >= '0' && c <= '9' || c >= 'a' && c <= 'z' || c >= 'A' && c <= 'Z'
@@ -253,7 +262,7 @@ func buildInventory(P *Program) *refInventory {
 		} else if f.Object() != nil && f.Object().Pkg() != nil {
 			pkg = f.Object().Pkg().Path()
 		}
-		inv.Funcs[f.String()] = refFunc{Pkg: pkg, Recv: recvTypeName(f), Name: f.Name(), Sig: sigString(f), Flat: flatSigString(f), Tokens: funcTokens(f), Locals: namedLocals(f, nil), Names: declaredNames(f)}
+		inv.Funcs[f.String()] = refFunc{Pkg: pkg, Recv: recvTypeName(f), Name: f.Name(), Sig: sigString(f), Flat: flatSigString(f), Tokens: funcTokens(f), Locals: namedLocals(f, nil), Names: declaredNames(f), Wrap: wrapperOf(f)}
 	}
 	for _, p := range P.SSA.AllPackages() {
 		if !strings.HasPrefix(p.Pkg.Path(), modPath) {
@@ -336,7 +345,7 @@ func jaccard(a, b []string) float64 {
 
 // loadRenames compares the analysed program with the reference inventory.
 func loadRenames(P *Program, path string) {
-	curRenames = &renameTable{funcAlias: map[*ssa.Function]string{}, funcByRef: map[string]*ssa.Function{}, fieldAlias: map[*types.Var]string{}, groupField: map[*types.Var]bool{}, paramPerm: map[*ssa.Function][]int{}, localAlias: map[*ssa.Alloc]string{}, typeNew2Old: map[string]string{}, typeOld2New: map[string]string{}}
+	curRenames = &renameTable{funcAlias: map[*ssa.Function]string{}, funcByRef: map[string]*ssa.Function{}, fieldAlias: map[*types.Var]string{}, groupField: map[*types.Var]bool{}, paramPerm: map[*ssa.Function][]int{}, localAlias: map[*ssa.Alloc]string{}, wrapFold: map[string][]wrapFold{}, typeNew2Old: map[string]string{}, typeOld2New: map[string]string{}}
 	haveReference = false
 	curProgram = P
 	b, err := os.ReadFile(path)
@@ -355,6 +364,10 @@ func loadRenames(P *Program, path string) {
 	tokenRefNames = nil
 	t := curRenames
 	haveReference = true
+	refTypeNames = map[string]bool{}
+	for k := range ref.Types {
+		refTypeNames[k] = true
+	}
 	refFuncNames = map[string]bool{}
 	for k := range ref.Funcs {
 		refFuncNames[k] = true
@@ -494,29 +507,48 @@ func loadRenames(P *Program, path string) {
 		}
 		cp, cres := splitFlat(mapTypes(cf.Flat))
 		rp, rres := splitFlat(rf.Flat)
-		if cres != rres || len(cp) != len(rp) || len(cp) != len(curFn[k].Params) {
+		if cres != rres || len(cp) < len(rp) || len(cp) != len(curFn[k].Params) {
 			continue
 		}
+		// every reference parameter type occurs once in both lists; parameters the reference does not have
+		// (added ones) come after the reference positions
 		perm := make([]int, len(cp))
 		okPerm := true
+		used := map[int]bool{}
+		extra := len(rp)
+		count := func(l []string, t string) int {
+			n := 0
+			for _, x := range l {
+				if x == t {
+					n++
+				}
+			}
+			return n
+		}
 		for i, ct := range cp {
 			at := -1
 			for j, rt := range rp {
 				if rt == ct {
-					if at >= 0 {
-						okPerm = false // a type that occurs twice: the order of the two is not known
-					}
 					at = j
 				}
 			}
-			if at < 0 {
+			switch {
+			case at >= 0 && count(rp, ct) == 1 && count(cp, ct) == 1:
+				perm[i] = at
+				used[at] = true
+			case at < 0:
+				perm[i] = extra
+				extra++
+			default:
 				okPerm = false
 			}
-			perm[i] = at
+		}
+		if len(used) != len(rp) {
+			okPerm = false
 		}
 		if okPerm {
 			t.paramPerm[curFn[k]] = perm
-			t.Notes = append(t.Notes, fmt.Sprintf("function %s has its parameters reordered %v", shortenFull(k), perm))
+			t.Notes = append(t.Notes, fmt.Sprintf("function %s has its parameters reordered or extended %v", shortenFull(k), perm))
 		}
 	}
 	var missF, newF []string
@@ -593,6 +625,17 @@ func loadRenames(P *Program, path string) {
 				t.Notes = append(t.Notes, fmt.Sprintf("func %s is %s renamed (body similarity %.2f)", shortenFull(c.n), shortenFull(c.m), c.score))
 			}
 		}
+	}
+
+	// 3b. reference functions that are gone without a successor and only forwarded to another call: a call of that
+	// shape is printed as a call of the wrapper (the wrapper was inlined at its call sites)
+	for _, m := range missF {
+		rf := ref.Funcs[m]
+		if rf.Wrap == nil || usedM[m] {
+			continue
+		}
+		t.wrapFold[rf.Wrap.Callee] = append(t.wrapFold[rf.Wrap.Callee], wrapFold{name: shortenFull(m), args: rf.Wrap.Args})
+		t.Notes = append(t.Notes, "func "+shortenFull(m)+" is gone; calls of the form "+rf.Wrap.Callee+"("+strings.Join(rf.Wrap.Args, ", ")+") read as calls of it")
 	}
 
 	// 4. locals of functions the reference knows (under their own or an aliased name)
@@ -910,4 +953,139 @@ func declaredNames(f *ssa.Function) []string {
 	}
 	sort.Strings(out)
 	return out
+}
+
+type wrapFold struct {
+	name string
+	args []string
+}
+
+// wrapperOf recognises `func w(params) R { return callee(args) }` with every argument a parameter of w or free of
+// parameters, and nothing else in the body.
+func wrapperOf(f *ssa.Function) *refWrap {
+	if len(f.Blocks) != 1 || len(f.AnonFuncs) > 0 {
+		return nil
+	}
+	var call *ssa.Call
+	for _, ins := range f.Blocks[0].Instrs {
+		switch x := ins.(type) {
+		case *ssa.Call:
+			// argument-less calls that feed the one call (context.Background()) are part of its arguments
+			if call != nil {
+				return nil
+			}
+			if len(x.Common().Args) == 0 && !x.Common().IsInvoke() && x.Common().StaticCallee() != nil && len(*x.Referrers()) == 1 {
+				if _, feeds := (*x.Referrers())[0].(*ssa.Call); feeds {
+					continue
+				}
+			}
+			call = x
+		case *ssa.Return, *ssa.Extract, *ssa.DebugRef, *ssa.UnOp, *ssa.FieldAddr, *ssa.Alloc, *ssa.Store:
+			// value receivers are spilled (Alloc/Store/UnOp): tolerated, checked through the argument terms below
+		default:
+			return nil
+		}
+	}
+	if call == nil || call.Common().IsInvoke() || call.Common().StaticCallee() == nil {
+		return nil
+	}
+	w := &refWrap{Callee: shortenFull(call.Common().StaticCallee().String())}
+	for _, a := range call.Common().Args {
+		d := describe(a)
+		if strings.Contains(d, "local:") || strings.Contains(d, "phi(") {
+			return nil
+		}
+		w.Args = append(w.Args, d)
+	}
+	// the results are the call's results, in order
+	ret, ok := f.Blocks[0].Instrs[len(f.Blocks[0].Instrs)-1].(*ssa.Return)
+	if !ok {
+		return nil
+	}
+	for i, rv := range ret.Results {
+		switch x := rv.(type) {
+		case *ssa.Call:
+			if x != call || len(ret.Results) != 1 {
+				return nil
+			}
+		case *ssa.Extract:
+			if x.Tuple != ssa.Value(call) || x.Index != i {
+				return nil
+			}
+		default:
+			return nil
+		}
+	}
+	return w
+}
+
+// foldWrapper: a call `name(args)` that has the shape of an inlined reference wrapper is printed as that wrapper.
+func foldWrapper(name string, args []string) (string, bool) {
+	for _, wf := range curRenames.wrapFold[name] {
+		if len(wf.args) != len(args) {
+			continue
+		}
+		bound := map[int]string{}
+		ok := true
+		maxP := -1
+		for i, pa := range wf.args {
+			if strings.HasPrefix(pa, "$") && isNumLit(pa[1:]) {
+				var k int
+				fmt.Sscanf(pa[1:], "%d", &k)
+				if prev, seen := bound[k]; seen && prev != args[i] {
+					ok = false
+				}
+				bound[k] = args[i]
+				if k > maxP {
+					maxP = k
+				}
+			} else if pa != args[i] {
+				ok = false
+			}
+		}
+		if !ok {
+			continue
+		}
+		var out []string
+		for k := 0; k <= maxP; k++ {
+			v, has := bound[k]
+			if !has {
+				ok = false
+				break
+			}
+			out = append(out, v)
+		}
+		if ok {
+			return wf.name + "(" + strings.Join(out, ", ") + ")", true
+		}
+	}
+	return "", false
+}
+
+// inlinedWrapper: the reference function of that (short) name only forwarded to another call, is gone, and calls
+// of its body's shape are read as calls of it.
+func inlinedWrapper(name string) bool {
+	for _, l := range curRenames.wrapFold {
+		for _, w := range l {
+			if w.name == name {
+				return true
+			}
+		}
+	}
+	return false
+}
+
+var refTypeNames = map[string]bool{}
+
+// isNewType: a named type of the module that the reference tree does not have (under this or an aliased name).
+func isNewType(named *types.Named) bool {
+	if !haveReference || named.Obj().Pkg() == nil || !strings.HasPrefix(named.Obj().Pkg().Path(), modPath) {
+		return false
+	}
+	key := named.Obj().Pkg().Path() + "." + named.Obj().Name()
+	if refTypeNames[key] {
+		return false
+	}
+	_, aliased := curRenames.typeNew2Old[key]
+	return !aliased
 }
